@@ -118,6 +118,24 @@ theorem intoUnit_valid (a b : U) (x y : Int) (hx : x ≠ NaT) (hr : InI64 x)
     exact ⟨floorTo_ne_nat a b x hx hr, hf⟩
   · cases h
 
+/-- converting to the unit a value already has changes nothing (also for NaT) -/
+theorem intoUnit_same (a : U) (x : Int) : intoUnit a a x = .ok x := by
+  simp [intoUnit]
+
+/-- **coarsening composes**: going `a → b → c` through ever coarser units gives the same value as
+going `a → c` directly (the floor of a floor is the floor), for every valid `x`, negative or not -/
+theorem intoUnit_coarser_compose (a b c : U) (x : Int) (hx : x ≠ NaT) (hr : InI64 x)
+    (h1 : a.mult ≤ b.mult) (h2 : b.mult ≤ c.mult) :
+    ∃ y, intoUnit a b x = .ok y ∧ intoUnit b c y = intoUnit a c x := by
+  have e1 := intoUnit_coarser_total a b x hx hr h1
+  obtain ⟨hy, hry⟩ := intoUnit_valid a b x _ hx hr e1
+  refine ⟨floorTo a b x, e1, ?_⟩
+  rw [intoUnit_coarser_total b c _ hy hry h2,
+    intoUnit_coarser_total a c x hx hr (Int.le_trans h1 h2)]
+  congr 1
+  unfold floorTo
+  cases a <;> cases b <;> cases c <;> simp only [U.mult] at * <;> omega
+
 /-- **bracketing**: the result denotes the unit interval containing the instant of `x`:
 `ns(b)·y ≤ ns(a)·x < ns(b)·(y+1)` -/
 theorem same_instant (a b : U) (x y : Int) (hx : x ≠ NaT) (hr : InI64 x)
